@@ -669,28 +669,36 @@ static int vi_motion(int *row, int *off)
 				break;
 		break;
 	case '{':
-		for (i = 0; i < cnt; i++)
-			if (lbuf_paragraphbeg(xb, -1, row, off))
-				break;
+		for (i = 0; i < cnt; i++) {
+			int r0 = *row;
+			if (lbuf_paragraphbeg(xb, -1, row, off) || *row == r0)
+				break;		/* at the first line: nothing more to do */
+		}
 		break;
 	case '}':
-		for (i = 0; i < cnt; i++)
-			if (lbuf_paragraphbeg(xb, +1, row, off))
-				break;
+		for (i = 0; i < cnt; i++) {
+			int r0 = *row;
+			if (lbuf_paragraphbeg(xb, +1, row, off) || *row == r0)
+				break;		/* at the last line: nothing more to do */
+		}
 		break;
 	case '[':
 		if (vi_read() != '[')
 			return -1;
-		for (i = 0; i < cnt; i++)
-			if (lbuf_sectionbeg(xb, -1, conf_section(ex_filetype()), row, off))
+		for (i = 0; i < cnt; i++) {
+			int r0 = *row;
+			if (lbuf_sectionbeg(xb, -1, conf_section(ex_filetype()), row, off) || *row == r0)
 				break;
+		}
 		break;
 	case ']':
 		if (vi_read() != ']')
 			return -1;
-		for (i = 0; i < cnt; i++)
-			if (lbuf_sectionbeg(xb, +1, conf_section(ex_filetype()), row, off))
+		for (i = 0; i < cnt; i++) {
+			int r0 = *row;
+			if (lbuf_sectionbeg(xb, +1, conf_section(ex_filetype()), row, off) || *row == r0)
 				break;
+		}
 		break;
 	case '0':
 		*off = 0;
